@@ -43,11 +43,11 @@ class PedRuns(BCheck):
             g = PED.generate(r, families=fam, unrelated=r.choice([0, 0, 1]), conflict=0.15 if i % 2 else 0.0, missing=0.1 if i % 3 == 0 else 0.0,
                              k_files=(0, 0) if i % 4 == 0 else (1, 2), crossover=0.1)
             yield dict(main_vcf=g["main_vcf"], phase_vcfs=g["phase_vcfs"], ped=g["ped"], trios=g["trios"], tag="PS" if i % 5 else "HP",
-                       recombrate=r.choice([1.26, 1.26, 50.0]))
+                       recombrate=r.choice([1.26, 1.26, 50.0, 1e5]))
 
     def check(self, inp):
         from runtime.phase_driver import run_phase
-        res = run_phase(inp["main_vcf"], inp["phase_vcfs"], ped=inp["ped"], tag=inp["tag"], recombrate=inp["recombrate"])
+        res = run_phase(inp["main_vcf"], inp["phase_vcfs"], ped=inp["ped"], tag=inp["tag"], recombrate=inp["recombrate"], lists=["recomb_list"])
         if res["error"]:
             return dict(expected="run_whatshap --ped succeeds (conflicting/missing variants are skipped, not fatal)", observed=res["error"],
                         traceback=res.get("traceback"), clause="abort")
@@ -88,6 +88,37 @@ class PedRuns(BCheck):
                         return dict(expected="%s: child %s paternal allele %d (father homozygous)" % (where, c, gts[f][0]), observed="%d|%d" % (a, b), clause="paternal|maternal")
                     if hom_m and b != gts[m][0]:
                         return dict(expected="%s: child %s maternal allele %d (mother homozygous)" % (where, c, gts[m][0]), observed="%d|%d" % (a, b), clause="paternal|maternal")
+        # the reported transmission (recombination list) selects the parental haplotype whose allele the child carries, on both sides of every event
+        index_of = {(rec["chrom"], rec["pos"]): ri for ri, rec in enumerate(records)}
+        parents = {c: (f, m) for f, m, c in inp["trios"]}
+        for line in (res.get("recomb_list") or "").split("\n"):
+            if not line or line.startswith("#"):
+                continue
+            x = line.split()
+            child, chrom, p1, p2 = x[0], x[1], int(x[2]), int(x[3])
+            tf, tm = (int(x[4]), int(x[5])), (int(x[6]), int(x[7]))
+            if child not in parents or (chrom, p1) not in index_of or (chrom, p2) not in index_of:
+                return dict(expected="recombination list rows name a child of the pedigree and two variant positions of the VCF", observed=line, clause="recombination-list")
+            if tf[0] == tf[1] and tm[0] == tm[1]:
+                return dict(expected="a listed recombination changes the transmitted haplotype of at least one parent", observed=line, clause="recombination-list")
+            for pos, t_f, t_m in ((p1, tf[0], tm[0]), (p2, tf[1], tm[1])):
+                ri = index_of[(chrom, pos)]
+                gts = {s: V.gt_alleles(inrecs[ri]["calls"][samples.index(s)]["GT"])[0] for s in samples}
+                if ri in phase[child]:
+                    cps, (c_pat, c_mat) = phase[child][ri][0], phase[child][ri][1]
+                elif None not in gts[child] and gts[child][0] == gts[child][1]:
+                    cps, (c_pat, c_mat) = None, gts[child]
+                else:
+                    continue
+                for parent, t, c_allele, what in ((parents[child][0], t_f, c_pat, "paternal"), (parents[child][1], t_m, c_mat, "maternal")):
+                    if ri not in phase[parent]:
+                        continue
+                    pps, haps = phase[parent][ri][0], phase[parent][ri][1]
+                    if haps[0] == haps[1] or (cps is not None and pps != cps):
+                        continue
+                    if haps[1 - t] != c_allele:
+                        return dict(expected="%s:%d child %s: reported %s transmission %d selects allele %d of %s (%d|%d)" % (chrom, pos, child, what, t, haps[1 - t], parent, haps[0], haps[1]),
+                                    observed="child's %s allele is %d; list row: %s" % (what, c_allele, line), clause="recombination-list")
         # written alleles == solver's super-read alleles
         for call in res["solver_calls"]:
             for s, sr in zip(call["family"], call.get("superreads", [])):
